@@ -61,10 +61,10 @@ Definition withsig (hx : list ((bool * bool) * (R * R))) : list ((bool * bool) *
 (* weight of step t: M(t) * |gamma(t)| *)
 Definition sigw (hx : list ((bool * bool) * (R * R))) (t : nat) : R :=
   fst (nth t (map snd hx) (0, 0)) * Rabs (snd (nth t (map snd hx) (0, 0))).
-(* the step time is positive; a connection with delays has delayedby = kmax * dt and this synapse's delay is
-   k <= kmax steps (Connection.delay is clamped to [0, delayedby]) *)
+(* delays on the step grid (no interpolated view); the step time is positive; a connection with delays has
+   delayedby = kmax * dt and this synapse's delay is k <= kmax steps *)
 Definition grid_ok (c : config RN) (k : nat) : Prop :=
-  0 < c_dt RN c /\
+  c_off RN c = None /\ 0 < c_dt RN c /\
   (c_delayedby RN c = None \/
    exists kmax : nat, c_delayedby RN c = Some (INR kmax * c_dt RN c) /\ (k <= kmax)%nat).
 (* the weight change of a fresh single-sample cell trained over the history h (oldest first; every step: the
@@ -78,7 +78,7 @@ Definition post_train (h : list (bool * bool)) : list bool := map snd h.
 Definition set_delayed (c : config RN) (b : bool) : config RN :=
   mkConfig RN (c_trainer RN c) (c_mode RN c) (c_dt RN c) (c_lr_post RN c) (c_lr_pre RN c) (c_tc_post RN c) (c_tc_pre RN c)
            (c_lr_post3 RN c) (c_lr_pre3 RN c) (c_tc_post_slow RN c) (c_tc_pre_slow RN c) (c_tc_elig RN c) b
-           (c_delayedby RN c) (c_red RN c).
+           (c_delayedby RN c) (c_red RN c) (c_off RN c).
 (* the contribution of step t documented for pair-based STDP on the trains P (presynaptic, as it reaches the synapse)
    and Q (postsynaptic): eta_post [post spike at t] (sum over its partners) + eta_pre [pre spike at t] (sum over its partners) *)
 Definition stdp_contrib (m : tmode) (dt lr_post lr_pre tc_pre tc_post : R) (P Q : list bool) (t : nat) : R :=
@@ -95,7 +95,7 @@ Definition batch_signal (sg : signal RN) : Prop := match sg with SigTensor _ _ _
 Definition set_trainer (c : config RN) (t : trainer) : config RN :=
   mkConfig RN t (c_mode RN c) (c_dt RN c) (c_lr_post RN c) (c_lr_pre RN c) (c_tc_post RN c) (c_tc_pre RN c)
            (c_lr_post3 RN c) (c_lr_pre3 RN c) (c_tc_post_slow RN c) (c_tc_pre_slow RN c) (c_tc_elig RN c) (c_delayed RN c)
-           (c_delayedby RN c) (c_red RN c).
+           (c_delayedby RN c) (c_red RN c) (c_off RN c).
 (* folding a one-step kernel over a train of observations given newest first (None before the first observation) *)
 Fixpoint fold_kernel (f : bool -> option R -> R) (obs : list bool) : option R :=
   match obs with [] => None | o :: r => Some (f o (fold_kernel f r)) end.
